@@ -39,6 +39,7 @@ func configs() []*sched.Config {
 }
 
 func TestCheck(t *testing.T) {
+	vk.UseT(t)
 	cfgs := configs()
 	sched.WorkerMain(cfgs)
 	r := vk.Start("C20", "model_checking", 170*time.Second, 19*time.Minute)
